@@ -359,5 +359,34 @@ func HostileValues() []interface{} {
 		struct{ M map[string]interface{} }{nil}, struct{ M map[string]interface{} }{map[string]interface{}{"k": uint(1)}},
 		struct{ P **int }{nil}, struct{ E error }{nil}, struct{ T time.Time }{time.Unix(5, 0)}, struct{ T *time.Time }{nil},
 		reflect.ValueOf(3), []interface{}{1, 2},
+		cyclicMap(1), cyclicMap(3), mutualMaps(), cyclicSlice(), struct{ M map[string]interface{} }{cyclicMap(2)},
 	}
+}
+
+// cyclicMap is a map that contains itself under n keys.
+func cyclicMap(n int) map[string]interface{} {
+	m := map[string]interface{}{"a": 1, "F0": "x"}
+	for i := 0; i < n; i++ {
+		m[fmt.Sprintf("self%d", i)] = m
+	}
+	m["F1"] = m
+	return m
+}
+
+// mutualMaps are two maps that contain each other.
+func mutualMaps() map[string]interface{} {
+	a := map[string]interface{}{"F0": 1}
+	b := map[string]interface{}{"F1": 2, "back": a}
+	a["F2"] = b
+	a["A"] = []interface{}{1, b}
+	return a
+}
+
+// cyclicSlice is a document whose slice contains the document.
+func cyclicSlice() map[string]interface{} {
+	m := map[string]interface{}{"F0": 1}
+	s := []interface{}{1, m}
+	m["F1"] = s
+	s[0] = s
+	return m
 }
